@@ -10,8 +10,10 @@ SPEC = hdr_spec(
     partial_note="for histories of submissions from genesis (automatic clean not due; NO assumption on verdicts, since no submission can end in an internal error there: "
                  "C01_tip_maximal_wf) all three sentences are theorems: the tip has maximal accumulated work among all branch tips and the held best-chain headers are linked, Header(k).prev = Hash(k-1), across branch boundaries "
                  "(C01_chain_linked_submissions); the recorded work is the cumulative block work from genesis, strictly increasing (C01_work_is_cumulative), and no "
-                 "header held by any tracked branch carries more work than the reported tip (C01_tip_dominates_submissions). Not yet theorems: the same across "
-                 "Clean/Save/Load/marking (checked by correspondence + monitor on every generated history), arrival-order independence (exercised).")
+                 "header held by any tracked branch carries more work than the reported tip (C01_tip_dominates_submissions). For histories that START from a Load of any consistent "
+                 "storage image (C01_after_load_submissions: pruned root, side branches in any index order, unlinkable files) the tip stays maximal and the best chain linked down to the "
+                 "lowest height kept in memory, by the order-of-acceptance invariant of Proofs/LoadSound + ForestStep. Not yet theorems: the same across "
+                 "Clean/Save/marking in the middle of a history (checked by correspondence + monitor on every generated history), arrival-order independence (exercised).")
 
 META = dict(
     technique="Lean 4 proof (specification of Longest(); maximal-tip and linked-forest invariants by induction over submission histories) + model/implementation correspondence + Spec-level monitor",
@@ -19,7 +21,8 @@ META = dict(
          "repeated overtakes) from a state with maximal tip the reported tip has maximal accumulated work among all branch tips; the branch forest stays well linked "
          "(parents before children, internal links, first header links to the parent's header at the fork height) so the best chain's held headers satisfy "
          "Header(k).PrevBlock = Hash(k-1) down through forks of forks; accumulated work is exactly the sum of block works along the chain (each >= 1) and the reported tip "
-         "dominates every header any tracked branch holds. The correspondence runs fork-heavy histories incl. sibling/cousin overtakes through the real code and the model; the monitor recomputes "
+         "dominates every header any tracked branch holds. The same maximal-tip and linked-best-chain statements hold for every submission history that starts from the repository Load "
+         "builds out of any consistent storage image (C01_after_load_submissions). The correspondence runs fork-heavy histories incl. sibling/cousin overtakes through the real code and the model; the monitor recomputes "
          "cumulative work of every header from the definitions and checks tip maximality and linkage of Hash(0..tip) on every dump.",
     note=COMMON_NOTE + "Partial: see coverage.partial in the evidence. Concurrent peers are reduced to sequential histories by the extracted lock shapes (C01_lock_shapes).",
 )
